@@ -2,6 +2,7 @@ package main
 
 import (
 	"fmt"
+	"os"
 	"go/ast"
 	"go/token"
 	"go/types"
@@ -38,6 +39,7 @@ type Engine struct {
 	callLog  []*CallRec // every call executed in the top frame (for @pattern and must-call)
 	siteHits map[*SiteSpec]int
 	sitePat  map[*SiteSpec]int
+	siteInstr map[*SiteSpec]ssa.Instruction
 	topFrame *Frame
 	rngCtr   int
 	safeCtr  map[string]int
@@ -693,6 +695,9 @@ func (fr *Frame) pass(st *State, dry bool) {
 	for _, b := range rpo(fn) {
 		edges := in[b]
 		if len(edges) == 0 {
+			if os.Getenv("KVC_DEBUG") != "" && fr.top {
+				fmt.Fprintf(os.Stderr, "unreached block %d of %s (dry=%v)\n", b.Index, fn.Name(), dry)
+			}
 			continue
 		}
 		var cur *State
